@@ -18,7 +18,8 @@ try:
     if os.path.exists(demo):
         for name, inc in (('clean', '/repo/include'), ('changed', wt + '/include')):
             exe = os.path.join(wt, 'demo_' + name)
-            c = subprocess.run(['g++', '-std=c++17', '-O1', '-DNDEBUG', '-I' + inc, demo, '-o', exe], capture_output=True, text=True)
+            extra = open(os.path.join(seed, 'demo.flags')).read().split() if os.path.exists(os.path.join(seed, 'demo.flags')) else []   # e.g. -mavx for SIMD demos
+            c = subprocess.run(['g++', '-std=c++17', '-O1', '-DNDEBUG'] + extra + ['-I' + inc, demo, '-o', exe], capture_output=True, text=True)
             if c.returncode != 0: res['demo_' + name] = 'compile failed: ' + c.stderr[-500:]; continue
             try:
                 d = subprocess.run([exe], capture_output=True, text=True, timeout=120); res['demo_' + name] = dict(rc=d.returncode, out=(d.stdout + d.stderr)[-600:])
